@@ -22,7 +22,7 @@ if REPO not in sys.path:
 
 MARKERS = ("_type", "_bytes", "_bytesio")
 STRINGS = ["", "x", "_type", "_bytes", "_bytesio", "PdfContent", "é中 \"q\"\n", "\ufeff lead", " pad\t", "caf\udce9", "\x00\x1f", "\U0001f600\u2028"]
-SAFE_KEYS = ["k", "type", "bytes_", "Unnamed: 0"]
+SAFE_KEYS = ["k", "type", "bytes_", "Unnamed: 0", "__type", "__bytes", "___bytesio"]
 PRIM = {str: 1, int: 2, float: 3, bool: 4}
 
 
@@ -209,7 +209,7 @@ def check_instance(x, where):
     j2 = serialize_extraction(y)
     if j2 != j or _first_diff(j, j2):
         return {"target": f"{name}.from_json", "inputs": where, "expected": "identical to_json()", "observed": _first_diff(j, j2)}
-    d = payload_diff(x, y)
+    d = payload_diff(x, y) or deep_diff(x, y)
     if d:
         return {"target": f"{name}.from_json", "inputs": where, "expected": "nested objects of the same types with identical image/attachment bytes", "observed": d}
     for meth in ("get_full_text",):
@@ -265,6 +265,43 @@ def payload_diff(x, y, path="$"):
             d = payload_diff(a, b, f"{path}[{i}]")
             if d:
                 return d
+    return ""
+
+
+def deep_diff(x, y, path="$"):
+    """The restored object must hold the same data as the original: same scalars (type and value), same mapping keys (type,
+    value, order), same sequence items (list / tuple / set are interchangeable: they share one encoding), same nested types."""
+    if isinstance(x, (bytes, bytearray, io.BytesIO)) or isinstance(y, (bytes, bytearray, io.BytesIO)):
+        return payload_diff(x, y, path)
+    if dataclasses.is_dataclass(x) and not isinstance(x, type):
+        if type(y) is not type(x):
+            return f"{path}: {type(x).__name__} came back as {type(y).__name__}"
+        for f in dataclasses.fields(x):
+            d = deep_diff(getattr(x, f.name), getattr(y, f.name), f"{path}.{f.name}")
+            if d:
+                return d
+        return ""
+    if isinstance(x, dict):
+        if not isinstance(y, dict):
+            return f"{path}: mapping came back as {_short(y)}"
+        kx, ky = list(x), list(y)
+        if [(type(k), k) for k in kx] != [(type(k), k) for k in ky]:
+            return f"{path}: mapping keys {kx[:5]!r} came back as {ky[:5]!r}"
+        for k in kx:
+            d = deep_diff(x[k], y[k], f"{path}[{k!r}]")
+            if d:
+                return d
+        return ""
+    if isinstance(x, (list, tuple, set, frozenset)):
+        if not isinstance(y, (list, tuple, set, frozenset)) or len(x) != len(y):
+            return f"{path}: sequence {_short(x)} came back as {_short(y)}"
+        for i, (a, b) in enumerate(zip(list(x), list(y))):
+            d = deep_diff(a, b, f"{path}[{i}]")
+            if d:
+                return d
+        return ""
+    if type(x) is not type(y) or x != y:
+        return f"{path}: {x!r:.60} ({type(x).__name__}) came back as {y!r:.60} ({type(y).__name__})"
     return ""
 
 
@@ -571,18 +608,21 @@ def xlsx_cells_scope():
     for label, v in values:
         wb = openpyxl.Workbook()
         ws = wb.active
-        ws.append(["name", "value"])
-        ws.append(["a", v])
-        buf = io.BytesIO()
-        try:
+        for where_ in ("data", "header"):
+          wb = openpyxl.Workbook()
+          ws = wb.active
+          ws.append(["name", "value"] if where_ == "data" else ["name", v])
+          ws.append(["a", v] if where_ == "data" else ["a", 1])
+          buf = io.BytesIO()
+          try:
             wb.save(buf)
             buf.seek(0)
             results = list(read_xlsx(buf, "cell.xlsx"))
-        except Exception:  # noqa
+          except Exception:  # noqa
             continue
-        n += 1
-        for r in results:
-            where = {"file": f"XLSX with cell B2 = {label} ({v!r})", "sheet_data": repr(r.sheets[0].data) if r.sheets else None}
+          n += 1
+          for r in results:
+            where = {"file": f"XLSX with {'cell B2' if where_ == 'data' else 'header cell B1'} = {label} ({v!r})", "sheet_data": repr(r.sheets[0].data) if r.sheets else None}
             fail = check_instance(r, where)
             for u in ([] if fail else r.iterate_units()):
                 fail = fail or check_instance(u, dict(where, unit=True))
@@ -752,6 +792,103 @@ def xls_cells_scope():
             if not ok or not isinstance(text, str):
                 return {"target": "xls_extractor._get_cell_values", "inputs": {"cell": f"xlrd.sheet.Cell(ctype={ctype}, value={value!r})", "datemode": datemode},
                         "expected": "a JSON-able scalar (None/bool/int/float/str) for XlsSheet.data", "observed": f"{type(native).__name__}: {native!r}"}, n
+    return None, n
+
+
+def metadata_path_scope():
+    """FileMetadataInterface.populate_from_path / the extractors' `path` argument for every kind of path a caller may pass:
+    None, str, pathlib.Path; existing and not on disk; relative, absolute, with '//' and './' segments."""
+    import pathlib
+    import tempfile
+    from sharepoint2text.parsing.extractors import data_types as D
+    from sharepoint2text.parsing.extractors.plain_extractor import read_plain_text
+    n = 0
+    with tempfile.TemporaryDirectory() as d:
+        real = os.path.join(d, "real.txt")
+        open(real, "w").write("x")
+        paths = [None, "virtual/a.txt", "a.zip!/x//y/./z.txt", real, pathlib.Path("virtual/b.txt"), pathlib.Path(real), pathlib.PurePosixPath("c/d.txt"),
+                 pathlib.Path("/nonexistent-root-dir/e.txt"), ""]
+        for pth in paths:
+            for label, make in (("FileMetadataInterface().populate_from_path", lambda q: _populated(D.FileMetadataInterface(), q)),
+                                ("read_plain_text(BytesIO, path)", lambda q: list(read_plain_text(io.BytesIO(b"text"), q))[0])):
+                try:
+                    obj = make(pth)
+                except Exception:  # noqa  (rejecting a path is C01's business)
+                    continue
+                n += 1
+                fail = check_instance(obj, {"call": label, "path": repr(pth)})
+                if fail:
+                    return fail, n
+    return None, n
+
+
+def _populated(meta, pth):
+    meta.populate_from_path(pth)
+    return meta
+
+
+def xls_workbook_scope():
+    """The real xls_extractor._read_content on stand-in xlrd workbooks (no .xls writer is available): header rows and data rows
+    holding every cell type (text, number, date, boolean, error, empty), duplicates and blanks as header texts."""
+    import xlrd
+    from sharepoint2text.parsing.extractors.ms_legacy import xls_extractor as X
+    from sharepoint2text.parsing.extractors.data_types import XlsContent
+    C = xlrd.sheet.Cell
+
+    class Sheet:
+        def __init__(self, name, rows):
+            self.name, self.rows = name, rows
+            self.nrows, self.ncols = len(rows), max((len(r) for r in rows), default=0)
+
+        def cell(self, r, c):
+            return self.rows[r][c] if c < len(self.rows[r]) else C(xlrd.XL_CELL_EMPTY, "")
+
+        def row(self, r):
+            return self.rows[r]
+
+        def cell_value(self, r, c):
+            return self.cell(r, c).value
+
+    class Book:
+        datemode = 0
+
+        def __init__(self, sheets):
+            self._s = sheets
+            self.nsheets = len(sheets)
+
+        def sheets(self):
+            return self._s
+
+        def sheet_by_index(self, i):
+            return self._s[i]
+
+        def sheet_names(self):
+            return [s.name for s in self._s]
+
+    T, N, D_, B, E, Z = xlrd.XL_CELL_TEXT, xlrd.XL_CELL_NUMBER, xlrd.XL_CELL_DATE, xlrd.XL_CELL_BOOLEAN, xlrd.XL_CELL_ERROR, xlrd.XL_CELL_EMPTY
+    headers = [[C(T, "a"), C(T, "b")], [C(N, 2023.0), C(N, 1.5)], [C(B, 1), C(T, "x")], [C(D_, 36526.0), C(D_, 0.5)], [C(E, 7), C(Z, "")],
+               [C(T, "dup"), C(T, "dup")], [C(T, ""), C(T, " ")]]
+    body = [C(T, "v"), C(N, 2.0)], [C(B, 0), C(D_, 1.5)]
+    n = 0
+    old = xlrd.open_workbook
+    try:
+        for hdr in headers:
+            book = Book([Sheet("S", [hdr] + [list(r) for r in body]), Sheet("empty", [])])
+            xlrd.open_workbook = lambda *a, **k: book
+            try:
+                sheets = X._read_content(io.BytesIO(b""))
+            except Exception:  # noqa
+                continue
+            n += 1
+            x = XlsContent(sheets=sheets, full_text="t")
+            where = {"workbook": "stand-in xlrd Book", "header_row": [f"Cell(ctype={c.ctype}, value={c.value!r})" for c in hdr], "records": repr(sheets[0].data)[:200]}
+            fail = check_instance(x, where)
+            for u in ([] if fail else x.iterate_units()):
+                fail = fail or check_instance(u, dict(where, unit=True))
+            if fail:
+                return fail, n
+    finally:
+        xlrd.open_workbook = old
     return None, n
 
 
@@ -934,7 +1071,7 @@ def function_differential_scope():
     leaves = [None, True, 0, 7, -2.5, "", "x", "_type", "QUJD", b"", b"\x00\xff", bytearray(b"ab"), io.BytesIO(b"stream"), dim, img, att,
               D.ImageMetadata(unit_number=1, image_number=2, content_type="image/png")]
     values = list(leaves) + [[x] for x in leaves] + [(x, x) for x in leaves[:8]] + [{"k": x} for x in leaves] + [{x} for x in (1, "s")] + \
-             [[], {}, (), [[1, "a"], [None]], {"a": {"b": [b"\x01"]}}, D.TableData(data=[[1, "a", None]]), D.XlsSheet(name="s", data=[{"h": 1.5}], text="t")]
+             [{"__type": 1}, {"__bytes": "x", "___bytesio": None}, [[{"__type": "PdfContent"}]], [], {}, (), [[1, "a"], [None]], {"a": {"b": [b"\x01"]}}, D.TableData(data=[[1, "a", None]]), D.XlsSheet(name="s", data=[{"h": 1.5}], text="t")]
     for v in values:
         for b in (True, False):
             if isinstance(v, io.BytesIO):
@@ -956,7 +1093,7 @@ def function_differential_scope():
     # decoder
     tdim = {"_type": "TableDim", "rows": 1, "columns": 2}
     docs = [None, True, 3, 1.5, "", "x", "QUJD", {"_bytes": "QUJD"}, {"_bytesio": "QUJD"}, tdim, {"rows": 3}, {"rows": 3, "columns": 4, "extra": 1},
-            {"_type": "NoSuchClass", "rows": 1}, {"_type": "", "rows": 1}, {"_type": 5, "rows": 1}, {"k": "v"}, {"k": {"_bytes": "QUJD"}}, {},
+            {"_type": "NoSuchClass", "rows": 1}, {"_type": "", "rows": 1}, {"_type": 5, "rows": 1}, {"k": "v"}, {"k": {"_bytes": "QUJD"}}, {}, {"__type": "x"}, {"__bytes": 1, "___type": 2}, {"k": {"__bytesio": "x"}}, [{"__type": "TableDim"}],
             [], ["x", None], [tdim], [{"rows": 3}], {"k": {"rows": 3}}, ["QUJD"], [{"_bytes": "QUJD"}, "QUJD"], [[tdim]], [{"k": tdim}], {"k": [tdim]},
             {"_type": "ImageMetadata", "unit_index": 3, "image_index": 4, "content_type": "c"},
             {"_type": "ImageMetadata", "unit_number": 1, "unit_index": 3, "image_number": 2, "content_type": "c"},
@@ -1028,12 +1165,18 @@ def function_differential_scope():
     return None, n
 
 
-SCOPES = ("marker-slots", "function-differential", "type-directed-roundtrip", "base64-helpers-boundary-sizes", "post-init-idempotent", "ods-cell-kinds", "xlsx-cell-kinds", "xls-cell-kinds",
+SCOPES = ("metadata-paths", "xls-workbook-rows", "marker-slots", "function-differential", "type-directed-roundtrip", "base64-helpers-boundary-sizes", "post-init-idempotent", "ods-cell-kinds", "xlsx-cell-kinds", "xls-cell-kinds",
           "cli-stdout-json", "cli-payload-shapes", "fixture-documents")
 
 
 def run_scope(name):
     """-> (failure or None, description of the bound)."""
+    if name == "metadata-paths":
+        r, n = metadata_path_scope()
+        return r, f"{n} calls: populate_from_path / read_plain_text(path=...) with None, str and pathlib paths, existing and not on disk"
+    if name == "xls-workbook-rows":
+        r, n = xls_workbook_scope()
+        return r, f"{n} stand-in xlrd workbooks through the real _read_content: header rows of every cell type, duplicates, blanks"
     if name == "marker-slots":
         r, n = marker_slots_scope()
         return r, f"{n} documents (XLSX via openpyxl, ODS, HTML, e-mail, RTF, text/CSV) whose every author-controlled string slot holds a word of {MARKER_TEXTS!r}"
@@ -1095,10 +1238,13 @@ ROUTES = (("native-scope/bounded#", None),
           ("_bytes_to_base64", ("base64-helpers-boundary-sizes",)), ("_bytesio_to_base64", ("base64-helpers-boundary-sizes",)),
           ("_base64_to_bytes", ("base64-helpers-boundary-sizes",)),
           ("post-init", ("post-init-idempotent",)),
+          ("keys-are-str", ("xls-workbook-rows", "marker-slots")),
           ("dict-keys", ("marker-slots",)),
           ("ods_extractor", ("ods-cell-kinds",)),
           ("xlsx_extractor", ("xlsx-cell-kinds",)),
-          ("xls_extractor", ("xls-cell-kinds",)),
+          ("xls_extractor", ("xls-cell-kinds", "xls-workbook-rows")), ("XlsSheet", ("xls-workbook-rows",)),
+          ("populate_from_path", ("metadata-paths",)), ("Metadata", ("metadata-paths",)),
+          ("field-stores", ("metadata-paths", "post-init-idempotent", "type-directed-roundtrip")),
           ("cli.py::main", ("cli-stdout-json",)), ("cli.py", ("cli-payload-shapes", "cli-stdout-json")))
 
 
